@@ -481,6 +481,18 @@ def slice_(ip, b, lo, hi, step, st, node=None):
     if isinstance(b, BytesV) and all(isinstance(x, Const) for x in (lo, hi, step)) and step.value is None:
         if getattr(ip, 'record_slices', False) and b.parts and all(p[0] in ('lit', 'fix') for p in b.parts):
             return _cut_recorded(ip, b, lo.value, hi.value, st, node)
+        if getattr(ip, 'record_slices', False) and b.parts and isinstance(hi.value, int) and hi.value >= 0 and \
+                (lo.value is None or (isinstance(lo.value, int) and lo.value >= 0)):
+            # a window that lies entirely inside the leading parts of known size
+            known = []
+            n = 0
+            for p in b.parts:
+                if p[0] not in ('lit', 'fix'):
+                    break
+                known.append(p)
+                n += len(p[1]) if p[0] == 'lit' else p[1]
+            if known and hi.value <= n:
+                return _cut_recorded(ip, BytesV(known), lo.value, hi.value, st, node)
         bl, bh = bytes_len(b, st)
         if bl == bh and bl != INF:
             n = len(range(int(bl))[lo.value:hi.value])
@@ -633,6 +645,46 @@ class ConstMethod(Opaque):
             return [('val', Const(r), st)]
         kind = 'bytes' if self.attr == 'encode' else None
         return [('val', Opaque('%s(%s)' % (self.d, ', '.join(a.desc() for a in args)), kind), st)]
+
+
+class ConstDictGet(ConstMethod):
+    """`.get` of a constant dictionary (module tables): exact for a constant key; for a symbolic integer key
+    the lookup forks over the integer keys of the table, the remaining case yields the default."""
+    __slots__ = ()
+
+    def __init__(self, recv):
+        Opaque.__init__(self, 'table%s.get' % (sorted(recv, key=repr)[:3],))
+        self.recv = recv
+        self.attr = 'get'
+
+    def invoke(self, ip, args, kwargs, st, line):
+        if not args or kwargs:
+            return [('val', Opaque('%s(...)' % self.d), st)]
+        key = args[0]
+        default = args[1] if len(args) > 1 else Const(None)
+        if isinstance(key, Const):
+            try:
+                if key.value in self.recv:
+                    return [('val', Const(self.recv[key.value]), st)]
+            except TypeError:
+                pass
+            return [('val', default, st)]
+        ikeys = sorted(k for k in self.recv if isinstance(k, int) and not isinstance(k, bool))
+        if not ikeys or len(ikeys) != len(self.recv) or len(ikeys) > 16 or not isinstance(key, (Sym, Opaque)):
+            return [('val', Opaque('%s(%s)' % (self.d, key.desc())), st)]
+        out = []
+
+        def go(i, s):
+            if i == len(ikeys):
+                out.append(('val', default, s))
+                return
+            for r, s2 in compare(ip, ast.Eq(), key, Const(ikeys[i]), s, None):
+                if r:
+                    out.append(('val', Const(self.recv[ikeys[i]]), s2))
+                else:
+                    go(i + 1, s2)
+        go(0, st)
+        return out
 
 
 class SuperCall(Opaque):
